@@ -23,10 +23,13 @@ Inductive mtype :=
 | MPlain (name : str) (v : val)                               (* neither ObjectType nor TypeSet: alias, Integer, ... *)
 | MObject (name : str) (v : val) (alloc ctor : option val)    (* alloc: the allocator createNewFunction registers (no creators, a name);
                                                                  ctor: what Constructor(c) answers, None = nil *)
-| MSet (name : str) (v : val) (members : list (str * mtype)). (* Types(): key |-> member, in order *)
+| MSet (name : str) (v : val) (members : list (str * mtype))  (* Types(): key |-> member, in order *)
+| MBroken (name : str) (v : val).                             (* an object type whose Resolve(c) is rejected with a reported error (a parent
+                                                                 that is no object type, an attribute of an unknown kind, an override that
+                                                                 is not marked): resolveTypes / typeSet.Resolve end there with a panic *)
 
 Definition mt_val (m : mtype) : val :=
-  match m with MPlain _ v | MObject _ v _ _ | MSet _ v _ => v end.
+  match m with MPlain _ v | MObject _ v _ _ | MSet _ v _ | MBroken _ v => v end.
 
 Definition ns_ctor : str := [99; 111; 110; 115; 116; 114; 117; 99; 116; 111; 114]%N.    (* px.NsConstructor = "constructor" *)
 Definition ns_alloc : str := [97; 108; 108; 111; 99; 97; 116; 111; 114]%N.              (* px.NsAllocator = "allocator" *)
@@ -39,10 +42,17 @@ Inductive act :=
 | ASet (r : lref) (n : tname) (v : val)          (* r.SetEntry(n, px.NewLoaderEntry(v, nil)) *)
 | AUnlessSet (r : lref) (n : tname) (v : val).   (* le := r.LoadEntry(c, n); if le == nil || le.Value() == nil { r.SetEntry(n, ...v) } *)
 
+(* what happens to the context rather than to a loader *)
+Inductive cact :=
+| CEnter (r : lref)      (* internal/context.go:91 c.DoWithLoader(r, doer): the context holds r while doer runs *)
+| CLeave                 (* doer has returned: the deferred function (context.go:93) puts the saved loader back *)
+| CFail.                 (* the Resolve of a member / an object type panics with a reported error *)
+
 Inductive instr :=
 | IAct (a : act)
 | INode (parent : lref) (ts : tset)              (* px.NewTypeSetLoader(parent, ts) *)
-| IUnless (r : lref) (n : tname) (body : list act).   (* le := r.LoadEntry(c, n); if le == nil || le.Value() == nil { body } *)
+| IUnless (r : lref) (n : tname) (body : list act)    (* le := r.LoadEntry(c, n); if le == nil || le.Value() == nil { body } *)
+| ICtx (c : cact).
 
 Section Compile.
   Variable auth : str.    (* px.RuntimeNameAuthority: px.NewTypedName(ns, name) *)
@@ -63,13 +73,14 @@ Section Compile.
   (* internal/context.go:276-288: one member t of a type set whose type-set loader is `me` *)
   Definition member_instr (me : lref) (m : mtype) : instr :=
     match m with
-    | MPlain name v | MSet name v _ => IUnless HL (tn_of ns_type name) [ASet HL (tn_of ns_type name) v]
+    | MPlain name v | MSet name v _ | MBroken name v => IUnless HL (tn_of ns_type name) [ASet HL (tn_of ns_type name) v]
     | MObject name v al ct => IUnless HL (tn_of ns_type name) (ASet HL (tn_of ns_type name) v :: construct me name al ct)
     end.
 
   (* A type set is resolved (typeset.go:412) with `h` as the current loader, `next` type-set loaders made so far:
-     its own type-set loader is the next one, the nested sets are resolved below it, in the order of Types()
-     (:431 MapValues).  resolveTypeSet (context.go:268) then walks the members in the same order, a nested set
+     its own type-set loader is the next one, the members - nested sets among them - are resolved inside
+     `c.DoWithLoader(px.NewTypeSetLoader(c.Loader(), t), ...)` (:427), in the order of Types() (:431 MapValues);
+     a member whose Resolve is rejected ends the call there (CFail).  resolveTypeSet (context.go:268) then walks the members in the same order, a nested set
      before the member that it is (:271).  Answer: the loaders made, the calls of resolveTypeSet, the new count. *)
   Fixpoint plan (h : lref) (next : nat) (m : mtype) {struct m} : list instr * list instr * nat :=
     match m with
@@ -84,7 +95,8 @@ Section Compile.
              let '(k2, i2, n2) := go n1 ms' in
              (k1 ++ k2, i1 ++ member_instr me (snd km) :: i2, n2)
            end) (S next) ms in
-      (INode h (tset_of name ms) :: ks, is, nx)
+      (INode h (tset_of name ms) :: ICtx (CEnter me) :: ks ++ [ICtx CLeave], is, nx)
+    | MBroken _ _ => ([ICtx CFail], [], next)
     | _ => ([], [], next)
     end.
 
@@ -93,7 +105,7 @@ Section Compile.
     match ts with
     | [] => []
     | MSet _ _ _ :: ts' => phase1 ts'                                                  (* :121 kept for later *)
-    | (MPlain name v | MObject name v _ _) :: ts' => IAct (ASet HL (tn_of ns_type name) v) :: phase1 ts'   (* :124 *)
+    | (MPlain name v | MObject name v _ _ | MBroken name v) :: ts' => IAct (ASet HL (tn_of ns_type name) v) :: phase1 ts'   (* :124 *)
     end.
 
   (* internal/context.go:242-254 (first answer) and :256-258 (second answer) *)
@@ -107,6 +119,8 @@ Section Compile.
         let '(a, b) := phase2 nx ts' in (ks ++ a, is ++ b)
       | MObject name _ al ct =>                                                        (* :246 *)
         let '(a, b) := phase2 next ts' in (map IAct (construct HL name al ct) ++ a, b)
+      | MBroken _ _ =>                                                                 (* :243 rt.Resolve(c) panics *)
+        let '(a, b) := phase2 next ts' in (ICtx CFail :: a, b)
       | MPlain _ _ => phase2 next ts'
       end
     end.
@@ -178,6 +192,7 @@ Section Exec.
       | REntry _ => exec_acts s1 body
       | _ => (s1, aout_of o)
       end
+    | ICtx c => (s, match c with CFail => AErr EOther | _ => AOk end)   (* nothing happens to the loaders *)
     end.
 
   Fixpoint exec (s : S) (is : list instr) : S * aout :=
@@ -254,6 +269,7 @@ Definition instr_wf (i : instr) : bool :=
   | IAct a => tn_wf (norm (act_name a))
   | INode _ ts => ts_wf ts
   | IUnless _ n body => tn_wf (norm n) && forallb (fun a => tn_wf (norm (act_name a))) body
+  | ICtx _ => true
   end.
 
 (* every reference is to L or to a type-set loader made earlier by the same call: true of every `compile` output
@@ -266,6 +282,7 @@ Fixpoint scoped (made : nat) (is : list instr) : bool :=
   | IAct a :: is' => ref_ok made (act_ref a) && scoped made is'
   | INode p _ :: is' => ref_ok made p && scoped (S made) is'
   | IUnless r _ body :: is' => ref_ok made r && forallb (fun a => ref_ok made (act_ref a)) body && scoped made is'
+  | ICtx c :: is' => match c with CEnter r => ref_ok made r | _ => true end && scoped made is'
   end.
 
 Definition xop_wf (cfg : config) (x : xop) : bool :=
@@ -274,11 +291,12 @@ Definition xop_wf (cfg : config) (x : xop) : bool :=
   | XAddTypes _ ts => forallb instr_wf (compile (cfg_auth cfg) ts)
   end.
 
-(* the kind of result every operation has: px.AddTypes ends normally or with one of the two redefinition errors *)
+(* the kind of result every operation has: px.AddTypes ends normally, with one of the two redefinition errors, or
+   with the error by which the resolution of one of the types was rejected (EOther) *)
 Definition xout_ok (x : xop) (r : xout) : bool :=
   match x, r with
   | XOp o, XR r => out_ok o r
-  | XAddTypes _ _, XA (AOk | AErr ERedefine | AErr ERedefineType | ABadLoader) => true
+  | XAddTypes _ _, XA (AOk | AErr ERedefine | AErr ERedefineType | AErr EOther | ABadLoader) => true
   | _, _ => false
   end.
 
@@ -303,4 +321,5 @@ Definition instr_keys (i : instr) : list str :=
   | IAct a => [act_key a]
   | INode _ _ => []
   | IUnless _ _ body => map act_key body
+  | ICtx _ => []
   end.
